@@ -20,4 +20,7 @@ mod on_curve;
 #[cfg(feature = "r1cs")]
 pub mod r1cs;
 
+#[cfg(decaf377_verif)]
+pub mod verif;
+
 pub use bls12_377::Bls12_377;
